@@ -727,21 +727,25 @@ def do_directions(part, start, end, counter):
         mode="ending",
     )
 
-    for direction in directions:
-        text = direction.raw_text or direction.text
+    def range_stop(direction):
         e0 = etree.Element("direction")
         e1 = etree.SubElement(e0, "direction-type")
 
         if getattr(direction, "wedge", False):
             number = range_number_from_counter(direction, "wedge", counter)
-            e2 = etree.SubElement(e1, "wedge", number="{}".format(number), type="stop")
+            etree.SubElement(e1, "wedge", number="{}".format(number), type="stop")
 
         else:
             number = range_number_from_counter(direction, "dashes", counter)
             etree.SubElement(e1, "dashes", number="{}".format(number), type="stop")
 
-        elem = (direction.end.t, None, e0)
-        result.append(elem)
+        return (direction.end.t, None, e0)
+
+    for direction in directions:
+        if direction.start is not None and direction.start.t == direction.end.t:
+            # a range without extent is closed right after it is opened (below)
+            continue
+        result.append(range_stop(direction))
 
     # ending pedals (a pedal may end in a later measure than it starts in)
     pedals = part.iter_all(
@@ -871,6 +875,13 @@ def do_directions(part, start, end, counter):
 
             elem = (direction.start.t, None, e0)
             result.append(elem)
+
+            if (
+                isinstance(direction, score.DynamicDirection)
+                and direction.end is not None
+                and direction.end.t == direction.start.t
+            ):
+                result.append(range_stop(direction))
 
     return result
 
